@@ -110,6 +110,18 @@ Theorem c18_SubEliminateNegative_get :
   forall (l r : ores) (k : tid), owf r -> ores_in_range l -> ores_in_range r -> get (SubEliminateNegative l r) k = subElim_at (get (oget l) k) (get (oget r) k).
 Proof. exact SubEliminateNegative_get. Qed.
 Print Assumptions c18_SubEliminateNegative_get.
+Theorem c18_SubEliminateNegative_doc_refuted :
+  exists (l r : ores) (k : tid), owf l /\ owf r /\ ores_in_range l /\ ores_in_range r /\
+    get (SubEliminateNegative l r) k <> subElimDoc_at (get (oget l) k) (get (oget r) k) /\
+    snd (SubErrorNegative l r) <> some_key subNegDoc_at (oget l) (oget r).
+Proof. exact SubEliminateNegative_doc_refuted. Qed.
+Print Assumptions c18_SubEliminateNegative_doc_refuted.
+Theorem c18_SubEliminateNegative_doc_partial :
+  forall (l r : ores) (k : tid), owf r -> ores_in_range l -> ores_in_range r ->
+    left_only_negative_at (get (oget l) k) (get (oget r) k) = false ->
+    get (SubEliminateNegative l r) k = subElimDoc_at (get (oget l) k) (get (oget r) k).
+Proof. exact SubEliminateNegative_doc_partial. Qed.
+Print Assumptions c18_SubEliminateNegative_doc_partial.
 Theorem c18_SubEliminateNegative_keys :
   forall (l r : ores) (k : tid), owf r -> has (SubEliminateNegative l r) k = has (oget l) k || has (oget r) k.
 Proof. exact SubEliminateNegative_keys. Qed.
